@@ -842,7 +842,8 @@ class Module:
         tree0 = ast.parse(source, filename=path)
         ref_funcs = alpha.load_table().get(relpath.replace(os.sep, "/"))
         # helpers that the reference version of this module does not have are inlined back into their callers
-        self.inlined_helpers = inline.inline_new_helpers(tree0, set(ref_funcs)) if ref_funcs else []
+        ref_locals = {q: (set(v.get("locals", [])) | {k.split(".")[-1] for k in ref_funcs if k.startswith(q + ".")}) for q, v in ref_funcs.items()} if ref_funcs else None
+        self.inlined_helpers = inline.inline_new_helpers(tree0, set(ref_funcs), ref_locals) if ref_funcs else []
         self.tree = normal_form(tree0)
         self.alpha_renamed = alpha.normalise(self.tree, relpath)   # locals renamed back to their reference names
         self.functions: Dict[str, FuncInfo] = {}
